@@ -23,12 +23,15 @@ RULE = ("scenario families over {subscribe (plain / decorated object, also a fal
         "sharing the subscription ids with first / middle / last instance unsubscribed; same or different topics; exact, prefix, "
         "wildcard; no details / details=True / details_arg=<name>), SUBSCRIBED / ERROR, unsubscribe() from the "
         "application and from inside a handler (of itself, an earlier, a later sibling), UNSUBSCRIBED / ERROR / "
-        "router revocation, EVENT (6 payload shapes x 4 detail sets) on held, racing, gone and never-held ids} with "
+        "router revocation, EVENT (6 payload shapes x 4 detail sets; publication ids scattered over 1..2**53, not increasing; "
+        "ONE publication delivered under 2-4 overlapping subscriptions of the session = one EVENT per subscription id with the "
+        "same publication id and payload, back to back or interleaved with other publications; a new publication repeating "
+        "the payload of the EVENT before) on held, racing, gone and never-held ids} with "
         "raising handlers (sync RuntimeError, ApplicationError, failed future, failing coroutine) and handlers returning "
         "futures / coroutines, the same callable subscribed several times, subscribe() from inside a handler, a refused "
         "UNSUBSCRIBE after which the router keeps the subscription, up to 8+ handlers per id: every admissible ORDER of the 4-7 "
         "concurrent steps of each family instance is enumerated (prefix-pruned DFS over distinct permutations), plus "
-        "(thorough tier) every admissible sequence of 6 distinct steps over 10 alphabets of 9-11 steps, each on 2 of the "
+        "(thorough tier) every admissible sequence of 6 distinct steps over 11 alphabets of 9-11 steps, each on 2 of the "
         "8 combinations per framework; plus seeded adaptive random histories of 10-48 steps; each case on a fresh session over one of 8 "
         "transport x serializer combinations, on Twisted and on asyncio.  A case is non-trivial when at least one "
         "EVENT fan-out was compared with the model; distinct = hash(framework, transport, serializer, handler table, "
@@ -66,6 +69,15 @@ ASSUMPTIONS = [
     "to UNSUBSCRIBE (the router says it has no such subscription: like after UNSUBSCRIBED, a conforming router cannot send it)",
     "observed, not judged (outside the statement): the topic string that subscribe(obj) puts into SUBSCRIBE for a "
     "decorated '<name>' pattern",
+    "one publication matching several subscriptions of the session (overlapping exact / prefix / wildcard patterns) is sent by a "
+    "broker as one EVENT per matching subscription, all with the same publication id, payload and publisher details (WAMP basic "
+    "profile: 'the Broker will send an EVENT for each subscription'); every such EVENT is an EVENT of the statement and is judged "
+    "on its own subscription id. The scripted router sends them in any order, also with EVENTs of other publications in between "
+    "(no cross-subscription ordering is promised), and only reuses a publication id among the topic groups of the overlapping "
+    "family, whose patterns all match the one concrete topic",
+    "not driven (a conforming broker does not do it): the same publication id twice under ONE subscription id",
+    "publication ids carry no order (WAMP global-scope ids are random): an EVENT with a lower id than an earlier one, and a new "
+    "publication whose payload equals the previous one, are ordinary EVENTs",
     "not driven: payload encryption, acknowledged delivery, check_types, transport loss in the middle of a fan-out (C06)",
     "the harness codecs (json/msgpack/cbor2/bjdata) and vf.rfc6455_ref are trusted for decoding what the client wrote",
 ]
@@ -79,12 +91,18 @@ DECIDING = {
     "same_class_unsubscribe_positions": 3, "same_callable_invocations": 100, "subscribe_in_handler_on_wire": 50,
     "unsubscribe_refused_subscription_kept": 30, "refused_unsubscribe_events_checked": 30, "pattern_topic_details_checked": 200, "pattern_kinds": 3,
     "exhaustive_cases": lambda tier: 100000 if tier == "thorough" else 0, "events_with_8_or_more_handlers": 50,
+    # state carried from one EVENT to the next (publication id / payload seen before) must not influence delivery
+    "copublication_events_checked": 300, "copublication_back_to_back": 150, "copublication_interleaved": 100,
+    "copublication_third_or_later_subscription": 30, "copublication_match_pairs": 4,
+    "repeated_payload_events_checked": 150, "lower_publication_id_events_checked": 500,
+    "lower_publication_id_on_same_subscription_checked": 500,
 }
-_DISTINCT_DECIDING = ("same_class_unsubscribe_positions", "pattern_kinds")
+_DISTINCT_DECIDING = ("same_class_unsubscribe_positions", "pattern_kinds", "copublication_match_pairs")
 
 COMBOS = [("websocket", "json"), ("websocket", "msgpack"), ("websocket", "cbor"), ("websocket", "ubjson"),
           ("rawsocket", "json"), ("rawsocket", "msgpack"), ("rawsocket", "cbor"), ("rawsocket", "ubjson")]
 SHAPES = ["none", "args", "emptyargs", "kwargs", "both", "emptykw"]
+RSHAPES = SHAPES + ["again", "again"]      # "again": a new publication with exactly the payload of the EVENT before
 NRAND_THOROUGH = 40000
 
 
@@ -107,8 +125,37 @@ def T(i, match=None, wc=False):
     return {"uri": "com.c11.t%d" % i, "match": match}
 
 
+OV_TOPIC = "com.c11.ov.a.leaf"
+OV_ROLES = {"exact": ("com.c11.ov.a.leaf", None, False), "prefix": ("com.c11.ov", "prefix", False),
+            "prefix2": ("com.c11.ov.a", "prefix", False), "wildcard": ("com.c11.ov..leaf", "wildcard", True),
+            "wildcard2": ("com.c11..a.leaf", "wildcard", True)}
+
+
+def TO(role):
+    """topic group of the OVERLAPPING family: every pattern matches the one concrete topic OV_TOPIC, so ONE publication to it
+    is sent by a broker as one EVENT per subscription the session holds in this family - same publication id, same payload,
+    different subscription ids."""
+    uri, match, wc = OV_ROLES[role]
+    t = {"uri": uri, "match": match, "ov": role}
+    if wc:
+        t["wc"] = True
+    return t
+
+
+def pub_id(n):
+    """publication id of the n-th publication of a case: WAMP ids are drawn at random from 1..2**53 by the broker, so they
+    are neither increasing nor of one magnitude (small ones, ones next to 2**53 and scattered ones are mixed)."""
+    if n % 11 == 3:
+        return n
+    if n % 11 == 7:
+        return 2 ** 53 - n
+    return 2 ** 20 + ((n * 0x9E3779B97F4A7C15) % (2 ** 64) >> 11) % (2 ** 53 - 2 ** 21)
+
+
 def concrete_topic(topic, n):
     """the concrete topic an event matching the subscription is published to."""
+    if topic.get("ov"):
+        return OV_TOPIC
     if topic.get("wc"):
         return topic["uri"].replace("..", ".x%d." % n)
     return topic["uri"] + (".x%d" % n if topic["match"] else "")
@@ -177,7 +224,12 @@ class Exec:
         self.onmsg_exc = []      # exceptions that left ApplicationSession.onMessage
         self.left = []
         self.disconnected = 0
-        self.n_event = 0
+        self.n_event = 0         # number of PUBLICATIONS so far (one publication = 1..k EVENTs, one per matching subscription)
+        self.pubs = {}           # publication key -> publication record (id, tag, payload, subscription ids it was sent under)
+        self.pub_order = []      # publication keys in order of first EVENT
+        self.last_sent = None    # (publication id, subscription id) of the EVENT sent last
+        self.last_payload = None  # (args, kwargs) as put into the last EVENT (None = element absent)
+        self.sid_maxpub = {}     # subscription id -> highest publication id sent under it so far
         self.events_judged = 0
         self.ended = False
         self.log = []            # compact trace for violation details
@@ -706,20 +758,25 @@ class Exec:
         return True
 
     # -- EVENT ---------------------------------------------------------------------------------
-    def _event_msg(self, sid, ti, shape, dflag):
+    def _publication(self, pk, shape, dflag):
+        """The publication an EVENT belongs to: a new one (own id, tag and payload), or - publication key seen before - the
+        one that was already delivered under ANOTHER subscription id (a publish matching several subscriptions of the
+        session).  shape "again": a NEW publication whose payload is identical to that of the previous EVENT (an application
+        publishing the same content twice)."""
+        rec = self.pubs.get(pk) if pk is not None else None
+        if rec is not None:
+            return rec
         self.n_event += 1
         n = self.n_event
         tag = "e%d" % n
-        pub = 500000 + n
-        det = {}
-        topic = self.Ts[ti] if ti is not None else {"uri": "com.c11.unknown", "match": None}
-        if dflag & 1:
-            det.update(publisher=7000000 + n, publisher_authid="alice%d" % n, publisher_authrole="role%d" % n)
-        if dflag & 2:
-            det.update(retained=True)
-        if topic["match"] or dflag & 2:
-            det["topic"] = concrete_topic(topic, n)
         args = kwargs = None
+        again = False
+        if shape == "again":
+            if self.last_payload is None:
+                shape = "both"
+            else:
+                again = True
+                args, kwargs = json.loads(json.dumps(self.last_payload))
         if shape == "args":
             args = [tag, n, None, True]
         elif shape == "emptyargs":
@@ -730,45 +787,95 @@ class Exec:
             args, kwargs = [tag, [1, {"x": None}]], {"k": tag, "z": [n, "v"], "arg": {"a": 1}}
         elif shape == "emptykw":
             args, kwargs = [tag], {}
+        rec = {"pk": pk if pk is not None else "_%d" % n, "n": n, "tag": tag, "pub": pub_id(n), "shape": shape, "dflag": dflag,
+               "args": args, "kwargs": kwargs, "again": again, "sids": []}
+        self.pubs[rec["pk"]] = rec
+        self.pub_order.append(rec["pk"])
+        return rec
+
+    def _event_msg(self, sid, ti, shape, dflag, pk=None):
+        rec = self._publication(pk, shape, dflag)
+        rec.setdefault("ov", bool(ti is not None and self.Ts[ti].get("ov")))
+        n, tag, pub, shape, dflag = rec["n"], rec["tag"], rec["pub"], rec["shape"], rec["dflag"]
+        det = {}
+        topic = self.Ts[ti] if ti is not None else {"uri": "com.c11.unknown", "match": None}
+        if dflag & 1:
+            det.update(publisher=7000000 + n, publisher_authid="alice%d" % n, publisher_authrole="role%d" % n)
+        if dflag & 2:
+            det.update(retained=True)
+        if topic["match"] or dflag & 2:
+            det["topic"] = concrete_topic(topic, n)
+        args, kwargs = rec["args"], rec["kwargs"]
         m = [36, sid, pub, det]
         if args is not None:
             m.append(args)
         if kwargs is not None:
             m.append(kwargs)
-        return m, {"tag": tag, "pub": pub, "det": det, "args": args or [], "kwargs": kwargs or {}, "sid": sid,
-                   "shape": shape, "dflag": dflag, "topic": topic}
+        prev_sids = [x for x in rec["sids"] if x != sid]
+        ev = {"tag": tag, "pub": pub, "det": det, "args": args or [], "kwargs": kwargs or {}, "sid": sid,
+              "shape": shape, "dflag": dflag, "topic": topic, "pk": rec["pk"], "again": rec["again"] and not rec["sids"],
+              # the same publication was delivered before under these OTHER subscription ids ..
+              "copub_sids": prev_sids,
+              # .. by the EVENT immediately before this one / with EVENTs of other publications in between
+              "back_to_back": bool(prev_sids) and self.last_sent is not None and self.last_sent[0] == pub,
+              "prev_pub": self.last_sent[0] if self.last_sent else None,
+              "lower_on_sid": sid in self.sid_maxpub and pub < self.sid_maxpub[sid]}
+        self.sid_maxpub[sid] = max(pub, self.sid_maxpub.get(sid, 0))
+        rec["sids"].append(sid)
+        self.last_sent = (pub, sid)
+        self.last_payload = (args, kwargs)
+        return m, ev
 
-    def do_event(self, ti, shape="both", dflag=0):
+    def _pk_admissible(self, pk, ti, sid):
+        """An EVENT may carry the id of an EARLIER publication only if a conforming broker could send it: the publication
+        matched another subscription of the session as well (both topic groups belong to the overlapping family, whose
+        patterns all match OV_TOPIC) and it was not yet sent under this subscription id (one EVENT per publication and
+        subscription - a repeated EVENT for one (publication, subscription) pair is not driven)."""
+        rec = self.pubs.get(pk) if pk is not None else None
+        if rec is None:
+            return True
+        if ti is None or not self.Ts[ti].get("ov") or not rec.get("ov"):
+            return False
+        return sid not in rec["sids"]
+
+    def do_event(self, ti, shape="both", dflag=0, pk=None):
         """EVENT on the (topic, match) group ti - classified by the router/model state."""
         sid = self.tsid.get(ti)
+        if not self._pk_admissible(pk, ti, sid):
+            return False
         if self.rsub.get(ti) and sid not in self.grey:
             klass = "racing" if (sid in self.inflight and not self.lists.get(sid)) else "held"
             if klass == "held" and sid in self.refused and not self.lists.get(sid):
                 klass = "refused"     # no handler left but the router would not let go: the id is still held, drop silently
         elif sid is None or sid not in self.held:
-            return self.do_event_never_held(ti, shape, dflag)
+            return self.do_event_never_held(ti, shape, dflag, pk)
         elif sid in self.grey:
             klass = "grey"
         else:
             klass = "gone"
-        return self._deliver(sid, ti, shape, dflag, klass)
+        return self._deliver(sid, ti, shape, dflag, klass, pk)
 
-    def do_event_never_held(self, ti=None, shape="args", dflag=0):
+    def do_event_never_held(self, ti=None, shape="args", dflag=0, pk=None):
         if ti is not None and ti in self.tsid and self.tsid[ti] in self.held:
             return False
         sid = 9000 + 1000 * ti + self.gen.get(ti, 0) if ti is not None else 4242424242
         if sid in self.held:
             return False
-        return self._deliver(sid, ti, shape, dflag, "never-held")
+        if not self._pk_admissible(pk, ti, sid):
+            return False
+        return self._deliver(sid, ti, shape, dflag, "never-held", pk)
 
-    def _deliver(self, sid, ti, shape, dflag, klass):
+    def _deliver(self, sid, ti, shape, dflag, klass, pk=None):
         R = self.R
-        m, ev = self._event_msg(sid, ti, shape, dflag)
+        m, ev = self._event_msg(sid, ti, shape, dflag, pk)
+        shape, dflag = ev["shape"], ev["dflag"]
         L = list(self.lists.get(sid, []))
         cur = {"ev": ev, "L": L, "calls": [], "removed": [], "klass": klass}
         ue0 = len(self.user_errors)
         ex0 = len(self.onmsg_exc)
-        self.log.append("EVENT %s sid=%d %s dflag=%d class=%s L=%r" % (ev["tag"], sid, shape, dflag, klass, L))
+        self.log.append("EVENT %s pub=%d sid=%d %s dflag=%d class=%s L=%r%s" % (
+            ev["tag"], ev["pub"], sid, shape, dflag, klass, L,
+            " SAME PUBLICATION as delivered under %r" % (ev["copub_sids"],) if ev["copub_sids"] else ""))
         self.cur = cur
         try:
             self.rp.send(m)
@@ -844,6 +951,24 @@ class Exec:
         if strict and any(self.shared.get(x, ()) + (ev["sid"],) in self.sc_unsub for x in L):
             # an instance of a decorated class was unsubscribed, sibling instances (same class function) are still attached
             R.count("same_class_events_after_partial_unsubscribe")
+        if strict and L:
+            # state carried from one EVENT to the next must not matter: what else was delivered before (the same publication
+            # under another subscription id, an identical payload, a higher publication id) - deciding only when at least one
+            # handler has to be invoked
+            if ev["copub_sids"]:
+                R.count("copublication_events_checked")
+                R.count("copublication_back_to_back" if ev["back_to_back"] else "copublication_interleaved")
+                if len(ev["copub_sids"]) >= 2:
+                    R.count("copublication_third_or_later_subscription")
+                kinds = [t.get("ov") for ti, t in enumerate(self.Ts) if self.tsid.get(ti) in ev["copub_sids"]]
+                for kd in kinds:
+                    R.seen("copublication_match_pairs", "+".join(sorted([kd or "?", ev["topic"].get("ov") or "?"])))
+            if ev["again"]:
+                R.count("repeated_payload_events_checked")
+            if ev["prev_pub"] is not None and ev["pub"] < ev["prev_pub"]:
+                R.count("lower_publication_id_events_checked")
+            if ev["lower_on_sid"]:
+                R.count("lower_publication_id_on_same_subscription_checked")
         if removed:
             R.count("unsub_in_handler_events")
             for r in removed:
@@ -908,12 +1033,21 @@ class Exec:
             elif earlier_raised:
                 key = "C11/raising-handler/later-handler-skipped"
                 why = "after handler h%d raised" % earlier_raised[0]
+            elif ev["copub_sids"]:
+                key = "C11/handler-skipped/publication-already-delivered-under-other-subscription"
+                why = ("- the EVENT carries publication id %d, which was delivered before under subscription id(s) %r (one "
+                       "publish matching several subscriptions of the session: one EVENT per subscription)" % (ev["pub"], ev["copub_sids"]))
+            elif ev["again"]:
+                key = "C11/handler-skipped/payload-identical-to-previous-event"
+                why = "- a new publication (id %d) whose payload equals that of the EVENT before" % ev["pub"]
             else:
                 key = "C11/handler-skipped"
                 why = ""
             self.viol(key, "handler h%d is attached to subscription %d, nobody unsubscribed it, but it was not invoked for EVENT %s %s"
                       % (hid, ev["sid"], ev["tag"], why), model_list=L, calls=[x["hid"] for x in calls],
-                      removed=[(r["hid"], r["by"]) for r in removed])
+                      removed=[(r["hid"], r["by"]) for r in removed], publication=ev["pub"], previous_publication=ev["prev_pub"],
+                      publication_lower_than_previous=bool(ev["prev_pub"] is not None and ev["pub"] < ev["prev_pub"]),
+                      publication_lower_than_an_earlier_one_on_this_subscription=ev["lower_on_sid"])
 
     def judge_call(self, cur, c, EventDetails):
         R = self.R
@@ -1042,7 +1176,8 @@ class Exec:
         if k == "revoke":
             return self.do_revoke(st[1])
         if k == "event":
-            return self.do_event(st[1], st[2] if len(st) > 2 else "both", st[3] if len(st) > 3 else 0)
+            return self.do_event(st[1], st[2] if len(st) > 2 else "both", st[3] if len(st) > 3 else 0,
+                                 st[4] if len(st) > 4 else None)
         if k == "event_unknown":
             return self.do_event_never_held(None, st[1] if len(st) > 1 else "args", 0)
         raise ValueError(st)
@@ -1092,7 +1227,17 @@ class Exec:
             sid = self.tsid.get(ti)
             if self.rsub.get(ti) and sid not in self.grey:
                 w = 6.0 if self.lists.get(sid) else 3.0
-                out.append((w, ["event", ti, rng.choice(SHAPES), rng.randrange(4)]))
+                ov = bool(self.Ts[ti].get("ov"))
+                # events on the overlapping topic family get a publication key so that the same publication can follow
+                # under the other subscription ids it matches
+                out.append((w, ["event", ti, rng.choice(RSHAPES), rng.randrange(4)] + (["p%d" % (self.n_event + 1)] if ov else [])))
+                if ov:
+                    for pk in self.pub_order[-3:]:
+                        rec = self.pubs[pk]
+                        if pk.startswith("p") and rec.get("ov") and sid not in rec["sids"]:
+                            # one EVENT per matching subscription: mostly back to back, sometimes after other publications
+                            last = self.last_sent is not None and self.last_sent[0] == rec["pub"]
+                            out.append((16.0 if last else 1.5, ["event", ti, rec["shape"], rec["dflag"], pk]))
                 if sid not in self.inflight:
                     out.append((0.05, ["revoke", ti]))
             elif sid is not None and sid in self.held:
@@ -1318,6 +1463,15 @@ def exhaustive_configs():
                 [["sub", 0], ["sub", 3], ["ack", 0], ["ack", 3]],
                 [EVa, EVb, ["event", 1, "both", 1], ["event", 1, "kwargs", 2], ["ack", 1], ["ack", 2], ["unsub", 0], ["unsub", 3], ["ackun", 0],
                  ["ackun", 1]]))
+    # X6: three overlapping subscriptions, two publications matching all of them (one EVENT per subscription, same
+    # publication id), a repeated payload, handlers leaving (also from inside a handler of another subscription)
+    out.append(("X6/overlapping-subscriptions-one-publication",
+                [H(0, ["flag"]), H(1, None, unsub=[0]), H(2, ["arg", "evt"], raises="sync")],
+                [TO("exact"), TO("prefix"), TO("wildcard")], [], True,
+                [["sub", 0], ["sub", 1], ["sub", 2], ["ack", 0], ["ack", 1], ["ack", 2]],
+                [["event", 0, "both", 1, "P"], ["event", 1, "both", 1, "P"], ["event", 2, "both", 1, "P"],
+                 ["event", 0, "kwargs", 2, "Q"], ["event", 2, "kwargs", 2, "Q"], ["event", 1, "again", 0],
+                 ["unsub", 1], ["unsub", 2], ["ackun", 2]]))
     return out
 
 
@@ -1464,6 +1618,37 @@ def instances(tier):
     out.append(("L/pattern-subscriptions", hs, [T(0, wc=True), T(1, "prefix")], [{"hids": [1, 2], "objdet": None}], True,
                 [["sub", 0], ["subobj", 0], ["sub", 3], ["sub", 4]],
                 [["ack", 0], ["ack", 1], ["ack", 2], ["ack", 3], ["ack", 4], ["event", 0, "both", 1], ["event", 1, "kwargs", 3]]))
+    # N: ONE publication matching SEVERAL subscriptions of the session (overlapping exact / prefix / wildcard patterns): the
+    # broker sends one EVENT per matching subscription - same publication id, same payload, different subscription ids -
+    # back to back or interleaved with the EVENTs of another publication; each EVENT must reach the handlers of ITS id
+    P0, P1, P2 = ["event", 0, "both", 1, "P"], ["event", 1, "both", 1, "P"], ["event", 2, "both", 1, "P"]
+    Q0, Q1 = ["event", 0, "kwargs", 2, "Q"], ["event", 1, "kwargs", 2, "Q"]
+    for vi, (roles, dets) in enumerate(((("exact", "prefix"), (["flag"], None, ["arg", "evt"])),
+                                        (("wildcard", "exact"), (None, ["flag"], None)),
+                                        (("prefix", "prefix2"), (["arg", "evt"], ["flag"], ["flag"])),
+                                        (("wildcard2", "wildcard"), (None, None, None)))):
+        hs = [H(0, dets[0]), H(1, dets[1]), H(1, dets[2], raises="sync" if vi != 3 else None)]
+        if vi == 2:
+            hs[0]["unsub"] = [1]        # a handler of one subscription unsubscribes a handler of the OTHER one in between
+        out.append(("N/one-publication-two-subscriptions", hs, [TO(r) for r in roles], [], vi % 2 == 0,
+                    [["sub", 0], ["sub", 1], ["sub", 2], ["ack", 1], ["ack", 0], ["ack", 2]],
+                    [P0, P1, Q0, Q1, ["unsub", 0]]))
+    hs = [H(0, None), H(1, ["flag"]), H(2, ["arg", "evt"]), H(2, None, same=0), H(1, None, same=0)]
+    out.append(("N/one-publication-three-subscriptions-same-callable", hs, [TO("exact"), TO("prefix"), TO("wildcard")], [], False,
+                [["sub", i] for i in range(5)] + [["ack", i] for i in range(5)],
+                [P0, P1, P2, ["event", 1, "again", 0], ["unsub", 1], ["unsub", 4]]))
+    hs = [H(0, ["flag"], obj=0, own=True), H(1, None, obj=0, own=True), H(1, ["flag"]), H(0, None, raises="apperr")]
+    out.append(("N/decorated-object-overlapping-patterns", hs, [TO("exact"), TO("wildcard")], [{"hids": [0, 1], "objdet": None}], True,
+                [["subobj", 0], ["sub", 2], ["sub", 3], ["ack", 0], ["ack", 1], ["ack", 2], ["ack", 3]],
+                [P0, P1, Q1, Q0, ["unsub", 1]]))
+    # .. and two publications with IDENTICAL payload (an application publishing the same content twice): both are delivered
+    out.append(("N/identical-payload-published-twice", [H(0, None), H(0, ["flag"]), H(1, None)], [T(0), T(1, "prefix")], [], True,
+                [["sub", 0], ["sub", 1], ["sub", 2], ["ack", 0], ["ack", 1], ["ack", 2]],
+                [["event", 0, "both", 0], ["event", 0, "again", 1], ["event", 1, "again", 2], ["event", 0, "again", 0], ["unsub", 0]]))
+    for shape in ("none", "emptyargs", "kwargs"):
+        out.append(("N/identical-payload-published-twice", [H(0, ["arg", "evt"]), H(0, None)], [T(0, wc=True)], [], True,
+                    [["sub", 0], ["sub", 1], ["ack", 0], ["ack", 1], ["event", 0, shape, 1]],
+                    [["event", 0, "again", 1], ["event", 0, "again", 0], ["unsub", 1], ["event", 0, "args", 0]]))
     # G: never-held / early events and refused subscriptions
     out.append(("G/never-held-and-refused", [H(0, None), H(1, ["flag"])], [T(0), T(1)], [], True, [],
                 [["sub", 0], ["sub", 1], ["nack", 0], ["ack", 1], ["event", 0, "args", 0], ["event", 1, "args", 1]]))
@@ -1484,9 +1669,19 @@ def gen_random_case(rng, deep=False):
         topics.append(T(i, wc=True) if m == "wc" else T(i, m))
     nh = rng.randint(4, 12) if deep else rng.randint(2, 7)
     p0 = 0.8 if deep else 0.6
+    ovcase = False
+    if rng.random() < 0.35:
+        # overlapping subscriptions: 2-4 patterns that all match one concrete topic (one publish -> one EVENT per subscription)
+        topics = [TO(r) for r in rng.sample(sorted(OV_ROLES), rng.choice([2, 2, 3, 4]))]
+        ntop = len(topics)
+        nh = max(nh, ntop)
+        p0 = 0.35
+        ovcase = True
     hs = []
     for i in range(nh):
         ti = 0 if rng.random() < p0 else rng.randrange(ntop)
+        if ovcase and i < ntop:
+            ti = i          # every overlapping subscription has a handler
         det = rng.choice([None, None, ["flag"], ["arg", "evt"], ["arg", "details"], ["arg", "d2"]])
         rz = rng.choice(["sync", "apperr", "failed_future", "coro"]) if rng.random() < 0.22 else None
         un = []
@@ -1566,13 +1761,13 @@ def shards(tier, seed):
     out = []
     for fw in ("tx", "aio"):
         for ci, (tr, ser) in enumerate(COMBOS):
-            out.append({"name": "%s-%s-%s" % (fw, tr, ser), "fw": fw, "timeout": 1800 if tier == "quick" else 7200,
+            out.append({"name": "%s-%s-%s" % (fw, tr, ser), "fw": fw, "timeout": 3600 if tier == "quick" else 28800,
                         "params": {"tier": tier, "seed": seed, "combo": ci, "parts": len(COMBOS), "fw": fw}})
     if tier == "thorough":
         for fw in ("tx", "aio"):
             for ci in (0, 5):
                 tr, ser = COMBOS[ci]
-                out.append({"name": "%s-%s-%s-purepy" % (fw, tr, ser), "fw": fw, "timeout": 7200,
+                out.append({"name": "%s-%s-%s-purepy" % (fw, tr, ser), "fw": fw, "timeout": 28800,
                             "env": {"AUTOBAHN_USE_NVX": "0"},
                             "params": {"tier": tier, "seed": seed + 7919, "combo": ci, "parts": len(COMBOS), "fw": fw,
                                        "purepy": True}})
@@ -1626,7 +1821,9 @@ MANIFEST_ENTRY = {
              "(also from inside handlers) / UNSUBSCRIBED / EVENT histories - every admissible order of the concurrent steps "
              "of ~100 small family instances plus seeded random histories. Each EVENT's recorded fan-out (uniquely tagged "
              "handlers, exact keyword dictionaries, EventDetails contents) is compared with a model of the handler list "
-             "attached to that subscription id at arrival; the UNSUBSCRIBE messages decoded from the wire are compared with "
+             "attached to that subscription id at arrival - also when the same publication (same id and payload) arrives under "
+             "several overlapping subscriptions of the session, when a publication repeats the previous payload, and with "
+             "publication ids that are not increasing; the UNSUBSCRIBE messages decoded from the wire are compared with "
              "'exactly once, when the last handler goes'; raising handlers, racing and never-held ids are judged on the "
              "session/transport state. Held = no mismatch on the executions listed in the evidence; not a proof."),
     "note": ("conservative on what the statement leaves open: EVENT after UNSUBSCRIBED, after ERROR no_such_subscription to UNSUBSCRIBE and router "
